@@ -13,13 +13,16 @@ import (
 // accumulators: fields of the use graph that only ever grow; the verdict is
 // reachability over their final contents.
 var accumulatorFields = map[string]string{
-	"unused.graph.edges":          "set of edges (insert only)",
-	"unused.graph.nodes":          "node table (append only)",
-	"unused.graph.objects":        "object → node id (insert only)",
-	"unused.Node.uses":            "adjacency list (append only, de-duplicated through graph.edges)",
-	"unused.Node.owns":            "adjacency list (append only, de-duplicated through graph.edges)",
-	"unused.graph.namedTypes":     "list of named types (append only)",
-	"unused.graph.interfaceTypes": "list of interface types (append only)",
+	"unused.graph.edges":                     "set of edges (insert only)",
+	"unused.graph.nodes":                     "node table (append only)",
+	"unused.graph.objects":                   "object → node id (insert only)",
+	"unused.Node.uses":                       "adjacency list (append only, de-duplicated through graph.edges)",
+	"unused.Node.owns":                       "adjacency list (append only, de-duplicated through graph.edges)",
+	"unused.graph.namedTypes":                "list of named types (append only)",
+	"unused.graph.interfaceTypes":            "list of interface types (append only)",
+	"unused.SerializedGraph.nodes":           "merged node table (append only)",
+	"unused.SerializedGraph.nodesByPath":     "object path → merged node id (insert only; used to identify the same object across variants)",
+	"unused.SerializedGraph.nodesByPosition": "position → merged node id (insert only; used to identify the same object across variants)",
 }
 
 func init() {
@@ -35,6 +38,8 @@ func init() {
 		Assumptions: []string{"reachability over a set of edges does not depend on the order in which the edges were inserted"},
 		Run:         runC17,
 		Mutants: []Mutant{
+			{Name: "context-dependent-memo", File: "unused/unused.go", Rule: "R17.4", KeyPart: "graph.pkg::construction-state",
+				Old: "func (g *graph) addUse(by, used NodeID) {\n", New: "func (g *graph) addUse(by, used NodeID) {\n\tif by == 0 {\n\t\tg.pkg = nil\n\t}\n"},
 			{Name: "map-loop-overwrites-state", File: "unused/unused.go", Rule: "R17.1", KeyPart: "graph).entry",
 				Old: "\t\tfor obj := range g.objects {\n\t\t\tpath := g.fset.PositionFor(obj.Pos(), false).Filename\n", New: "\t\tfor obj := range g.objects {\n\t\t\tg.pkg = obj.Pkg()\n\t\t\tpath := g.fset.PositionFor(obj.Pos(), false).Filename\n"},
 			{Name: "edges-removed", File: "unused/unused.go", Rule: "R17.1", KeyPart: "never-shrinks",
@@ -62,7 +67,7 @@ func runC17(c *Ctx) {
 			ufuncs = append(ufuncs, fn)
 		}
 	}
-	graphTypes := map[string]bool{"unused.graph": true, "unused.Node": true}
+	graphTypes := map[string]bool{"unused.graph": true, "unused.Node": true, "unused.SerializedGraph": true}
 
 	// direct field writes per function
 	direct := map[*ssa.Function]map[string]token.Pos{}
@@ -214,6 +219,9 @@ func runC17(c *Ctx) {
 				if strings.HasPrefix(fn.Name(), "new") {
 					return
 				}
+				if _, fresh := fa.X.(*ssa.Alloc); fresh {
+					return // initialising a freshly allocated value
+				}
 				shrunk, shrunkPos = fn.String()+" stores a non-append value into "+k, st.Pos()
 			})
 		}
@@ -364,5 +372,47 @@ func runC17(c *Ctx) {
 		}
 		c.Check(FuncKey(lint)+"::unusedKey::key-parity", poss[0], same && len(sigs[0]) == 4, "the keys for used and unused objects must be built from the same origins, otherwise an object used in one variant never cancels its unused twin in another (%s)", diff)
 		c.Note("R17.3: key signature %v", sigs[0])
+	})
+	// R17.4: graph construction keeps no state besides the reviewed
+	// accumulators. Anything else that is written while the graph is being
+	// built and read back later (a memo, a "current X" field) makes the edges
+	// that are added depend on what was visited before, i.e. on file and
+	// declaration order.
+	c.Rule("R17.4", func() {
+		c.Floor("R17.4", 5)
+		seenKeys := map[string]bool{}
+		for _, fn := range ufuncs {
+			if fn.Parent() == nil && strings.HasPrefix(fn.Name(), "new") {
+				continue // constructors initialise the state
+			}
+			for _, a := range FieldAccesses(fn) {
+				so := shortOwner(a.Owner)
+				if !graphTypes[so] || (a.Kind != "write" && a.Kind != "content") {
+					continue
+				}
+				if st, ok := a.Instr.(*ssa.Store); ok {
+					if fa, ok := st.Addr.(*ssa.FieldAddr); ok {
+						if _, local := fa.X.(*ssa.Alloc); local {
+							continue // initialising a function-local value (a literal, a loop copy)
+						}
+					}
+				}
+				k := so + "." + a.Field
+				key := k + "::construction-state-is-a-reviewed-accumulator"
+				if seenKeys[key] {
+					continue
+				}
+				_, isAcc := accumulatorFields[k]
+				if isAcc || !seenKeys[key] {
+					seenKeys[key] = isAcc
+				}
+				if !isAcc {
+					seenKeys[key] = true
+					c.Check(key, a.Instr.Pos(), false, "%s is written in %s while the use graph is being built, but is not one of the reviewed grow-only accumulators (%v): state that is written and read back during construction makes the set of edges depend on the order in which files and declarations are visited", k, fn, SortedKeys(accumulatorFields))
+				} else {
+					c.Check(key, a.Instr.Pos(), true, "reviewed accumulator: %s", accumulatorFields[k])
+				}
+			}
+		}
 	})
 }
